@@ -48,12 +48,12 @@ theorem verify_views_eq (p : ProxyCfgView) (w : WebCfgView) (c : CacheCfgView) :
   rcases p with ⟨pl, pc, pk⟩
   rcases w with ⟨wl⟩
   rcases c with ⟨ms, ci, mb, ls, fd, ty⟩
-  unfold Rv.Generated.Src.proxyConfigVerify Rv.Generated.Src.webserverConfigVerify Rv.Generated.Src.cacheConfigVerify viewVerify
-  by_cases h1 : pl = "" <;> by_cases h2 : pc = "" <;> by_cases h3 : pk = "" <;> by_cases h4 : wl = "" <;> simp [h1, h2, h3, h4]
-  by_cases h5 : fd = "" <;> by_cases h6 : ty = "file" <;> by_cases h7 : ty = "memory" <;> simp [h5, h6, h7]
+  by_cases h1 : pl = "" <;> by_cases h2 : pc = "" <;> by_cases h3 : pk = "" <;> by_cases h4 : wl = "" <;>
+    simp [Rv.Generated.Src.proxyConfigVerify, Rv.Generated.Src.webserverConfigVerify, Rv.Generated.Src.cacheConfigVerify, viewVerify, h1, h2, h3, h4]
+  all_goals (by_cases h5 : fd = "" <;> by_cases h6 : ty = "file" <;> by_cases h7 : ty = "memory" <;> simp [h5, h6, h7])
   all_goals (repeat' split)
-  all_goals simp_all
-  all_goals (first | omega | (by_cases hty : ty = "file" <;> simp_all))
+  all_goals (first | done | grind | (simp_all <;> omega) | simp_all | omega)
+  all_goals (first | done | omega | (by_cases hty : ty = "file" <;> simp_all))
 
 theorem verify_eq (cfg : Rv.Config.Cfg) :
     (do let a ← Rv.Generated.Src.proxyConfigVerify (proxyView cfg)
